@@ -125,6 +125,10 @@ def invocations():
                     ("n_l", ["-n", "-l", "{host_bb}"]), ("nv_size", ["-n", "-v"]), ("nFF", ["-n", "-F", "-F"])]:
         add("mke2fs-" + name, "mke2fs", ["@mke2fs"] + a + ["{img}"], "mke2fs")
     add("mke2fs-n_size", "mke2fs", ["@mke2fs", "-n", "{img}", "4096"], "mke2fs")
+    # ---- C06 probe: a destination shorter than the source makes e2image -c spin in check_block() (read() = 0 forever).
+    # Not a C13 matter; it is here so that every run of the check exercises the "killed by the harness" path (Killed
+    # action, c06_observations routing) -- the source must still be untouched when the tool is killed.
+    add("e2image-rc-shortdest", "e2image", ["@e2image", "-rc", "{img}", "{out}"], "c06_probe")
     # ---- writing control runs (class rw): the recorder must see their writes
     add("ctl-e2fsck-fy", "e2fsck", ["@e2fsck", "-fy", "{img}"], "control", "rw")
     add("ctl-e2fsck-p", "e2fsck", ["@e2fsck", "-p", "{img}"], "control", "rw")
@@ -160,6 +164,7 @@ def doc_exit(tool, cls, code):
 
 
 WR_EVENTS = ("pwrite", "write", "pwritev", "ftruncate", "fallocate")
+PROBE_TIMEOUT = {"e2image-rc-shortdest": 3}
 
 
 class Runner:
@@ -233,7 +238,7 @@ class Runner:
         timed_out = False
         try:
             p = subprocess.run(argv, stdin=subprocess.DEVNULL, stdout=subprocess.DEVNULL, stderr=subprocess.PIPE, env=env, cwd=d,
-                               timeout=TIMEOUT)
+                               timeout=PROBE_TIMEOUT.get(inv.id, TIMEOUT))
             rc, err = p.returncode, p.stderr
         except subprocess.TimeoutExpired as e:
             rc, err, timed_out = -9, (e.stderr or b""), True
@@ -340,13 +345,17 @@ def model_check(ev, work):
 def plan(states, invs, tier, rng):
     """The (state, invocation) pairs of this tier.  thorough = the full cross product (controls on clean / journal / orphan
     states only); quick = every invocation on >= 3 states of different kinds + every state at least twice."""
-    ro = [i for i in invs if i.cls == "ro"]
+    ro = [i for i in invs if i.cls == "ro" and i.group != "c06_probe"]
+    probe = [i for i in invs if i.group == "c06_probe"]
     ctl = [i for i in invs if i.cls == "rw"]
-    ctl_states = [s for s in states if s.variant in ("clean", "jrn_recover", "orphan_list", "post_tune_undo")]
+    # (a read-write open of an MMP file system sleeps 11 s or more: no writing control runs on that profile)
+    ctl_states = [s for s in states if s.variant in ("clean", "jrn_recover", "orphan_list", "post_tune_undo") and s.profile != "mmp"]
+    clean = [s for s in states if s.variant == "clean"]
     pairs = []
     if tier == "thorough":
         pairs = [(s, i) for s in states for i in ro]
-        pairs += [(s, i) for s in ctl_states for i in ctl if not (s.profile == "mmp" and i.id != "ctl-tune2fs-L")]
+        pairs += [(s, i) for s in ctl_states for i in ctl]
+        pairs += [(s, i) for s in clean for i in probe]
         return pairs
     by_kind = collections.defaultdict(list)
     for s in states:
@@ -362,8 +371,9 @@ def plan(states, invs, tier, rng):
         if s.id not in seen:
             pairs.append((s, rng.choice(core)))
     for i in ctl:
-        cands = [s for s in ctl_states if s.profile != "mmp"]
-        pairs.append((rng.choice(cands), i))
+        pairs.append((rng.choice(ctl_states), i))
+    for i in probe:
+        pairs += [(s, i) for s in rng.sample(clean, min(2, len(clean)))]
     return pairs
 
 
@@ -443,6 +453,42 @@ def run(tier):
         shutil.rmtree(work, ignore_errors=True)
 
 
+def oracle_selftest(ev, results, preds, behs, work):
+    """Sensitivity of the oracle, every run: take accepted read-only traces and (a) insert a pwrite on a descriptor that
+    was opened read-write (mke2fs -n has one), (b) flip digest_equal, (c) insert an open with O_TRUNC.  Trace_ToolRun
+    must reject all three and accept the original; otherwise the check is broken (vacuous oracle)."""
+    k = next((k for k, (r, p) in enumerate(zip(results, preds)) if p[0] == "ok" and r["cls"] == "ro" and r["sig"] == 0 and
+              any(e["e"] == "open" and e["acc"] == "rdwr" for e in r["events"])), None)
+    if k is None:
+        k = next((k for k, (r, p) in enumerate(zip(results, preds)) if p[0] == "ok" and r["cls"] == "ro" and r["sig"] == 0 and
+                  any(e["e"] == "open" for e in r["events"])), None)
+    if k is None:
+        die_broken("oracle self-test: no accepted read-only trace with an open of the target")
+    base = behs[k]
+    oi = next(i for i, ln in enumerate(base) if json.loads(ln)["e"] == "open" and json.loads(ln)["acc"] == ("rdwr" if any(
+        json.loads(x).get("acc") == "rdwr" for x in base) else "rdonly"))
+    o = json.loads(base[oi])
+    wr = json.dumps({"e": "pwrite", "fd": o["fd"], "off_hi": 0, "off_lo": 1024, "len": 1024, "x": 0})
+    ex = json.loads(base[-1]); ex["digest_equal"] = 0
+    tr = json.dumps({"e": "open", "fd": 999, "acc": "rdwr", "creat": 0, "trunc": 1, "excl": 0})
+    variants = {"original": (base, False), "digest_flipped": (base[:-1] + [json.dumps(ex)], True),
+                "open_trunc_inserted": (base[:oi + 1] + [tr] + base[oi + 1:], True)}
+    if o["acc"] == "rdwr":
+        variants["pwrite_inserted"] = (base[:oi + 1] + [wr] + base[oi + 1:], True)
+    out = {}
+    for name, (beh, want_rej) in variants.items():
+        sub = os.path.join(work, "ost_" + name)
+        os.makedirs(sub, exist_ok=True)
+        rej, matched, inv, tail, raw = tracecheck.confirm(beh, TRACE_TLA, TRACE_CFG, sub)
+        if raw["error"] and not rej:
+            die_broken("oracle self-test: TLC failed on variant %s: %s" % (name, raw["error"]))
+        out[name] = "rejected at line %s" % matched if rej else "accepted"
+        if rej != want_rej:
+            die_broken("oracle self-test: Trace_ToolRun %s the %s trace of %s on %s\n%s" % ("rejects" if rej else "ACCEPTS", name, results[k]["inv"],
+                                                                                      results[k]["state"], tail[-600:]))
+    ev.cov["oracle_selftest"] = {"trace": "%s on %s" % (results[k]["inv"], results[k]["state"]), "verdicts": out}
+
+
 def judge(ev, vd, runner, states, invs, pairs, results, work, tier, timing):
     sbyid = {s.id: s for s in states}
     ibyid = {i.id: i for i in invs}
@@ -463,6 +509,13 @@ def judge(ev, vd, runner, states, invs, pairs, results, work, tier, timing):
     shape = [(r, p) for r, p in zip(results, preds) if p[0] == "shape"]
     if shape:
         die_broken("iotrace stream is not a well-formed descriptor history (%s) for %s on %s" % (shape[0][1][1], shape[0][0]["inv"], shape[0][0]["state"]))
+    seen_open = collections.defaultdict(int)
+    for r in results:
+        seen_open[r["tool"]] += any(e["e"] == "open" for e in r["events"])
+    blind_tools = [t for t in set(r["tool"] for r in results) if seen_open[t] == 0]
+    if blind_tools:
+        die_broken("instrumentation incomplete: no open() of the target was recorded in any run of %s" % ", ".join(sorted(blind_tools)))
+    oracle_selftest(ev, results, preds, behs, work)
     # ---- bulk validation of the runs predicted to be accepted
     ok_idx = [k for k, p in enumerate(preds) if p[0] == "ok"]
     res = tracecheck.validate([behs[k] for k in ok_idx], TRACE_TLA, TRACE_CFG, work, chunk_lines=4000 if tier == "quick" else 12000,
@@ -532,7 +585,7 @@ def judge(ev, vd, runner, states, invs, pairs, results, work, tier, timing):
                       "its event stream + exit line validated against Trace_ToolRun; non-trivial = read-only-class run on an image state "
                       "other than 'clean' (journal needing recovery, orphan list/file, MMP, quota, corruption recipe, random damage, post-tune2fs); "
                       "distinct by (invocation id, state id)")
-    ev.cov["universe"] = {"states": len(states), "profiles": len(G.PROFILES), "invocations_ro": len([i for i in invs if i.cls == "ro"]),
+    ev.cov["universe"] = {"states": len(states), "profiles": len(G.PROFILES), "invocations_ro": len([i for i in invs if i.cls == "ro" and i.group != "c06_probe"]),
                           "invocations_control_rw": len([i for i in invs if i.cls == "rw"]), "pairs_run": len(pairs),
                           "states_by_kind": dict(collections.Counter(s.kind for s in states)),
                           "runs_by_group": dict(collections.Counter(ibyid[r["inv"]].group for r in results))}
